@@ -13,6 +13,6 @@ fn main() {
             only: &["slot-lost", "txrx-panic", "app-panic"],
         },
         300,
-        4000,
+        2000,
     );
 }
